@@ -22,16 +22,30 @@ For every file
               and builds the same bytes. Parses/builds that raise, exhaust the memory cap or exceed the CPU cap
               (several parse loops do not terminate on a zero entry size) are *refusals* and only counted.
 
+  histories   ordered pairs (A, B) of corpus files handled one after the other by ONE process (quick: the 21 objects
+              of one source, one per toolchain variant, 420 ordered pairs; thorough: all ordered pairs of the corpus),
+              so that every combination 32-then-64 and 64-then-32 bit of either byte order, REL/EXEC/DYN, occurs in
+              both orders: the result for B (outcome, built bytes, all tables) must be the result B gives when it is
+              the only file its process ever handles.
+
+Process model: every shard (one file of the per-file stages, or one history) runs in a process forked for it from a
+parent that never executes loader code, so per-file results are fresh-state results and nothing the loader memoises
+leaks between shards. An exception of the loader that reaches the harness, or a shard process that dies, is reported
+as a violation (parse:raise:<ExcType>:<stage>:<class>), never as a harness error.
+
 Within the edit stage an exception raised by the loader is a refusal (the changed content is not acceptable to it),
 but a call that does not return (confirmed with a larger CPU cap) is a violation: the change was taken and the
 re-parse never yields anything.
 
 Not demanded: byte identity for deviated files (counted: the builder emits header-referenced bytes only).
 """
+import hashlib
 import logging
 import os
+import pickle
 import resource
 import signal
+import traceback
 
 from mc import elfcorpus
 from mc.runner import violation
@@ -39,7 +53,8 @@ from mc.runner import violation
 PROP = "C43"
 LEVEL = "exploration"
 ENGINE = "enum"
-RULE = ("corpus x edit lattice, completely enumerated: (file) for identity; (file, section with contents, first|last "
+RULE = ("corpus x edit lattice, completely enumerated: (file) for identity; (ordered pair of files in one process) for "
+        "histories; (file, section with contents, first|last "
         "byte, xor mask, API path) for edits; (file, header field, +1|-1) for deviations. Non-trivial = the edit was "
         "applied to a non-empty section (not refused) resp. the deviated file was accepted by the loader; the "
         "counters also say how many edits changed a *derived* table (symbols, dynamic, relocations, section names)")
@@ -59,6 +74,7 @@ ASSUMPTIONS = [
 
 CPU_CAP_SMALL = 0.3     # seconds of process CPU time for one parse/build of a file < 100 kB
 CPU_CAP_BIG = 8.0
+HISTORY_SOURCE_QUICK = "data"
 NONTERM_MULT = 4        # a CPU-cap trip inside an edit is re-run with this many times the cap before it is reported
 MEM_CAP = 3 << 29       # address-space cap of a worker while deviated files are handled
 
@@ -271,7 +287,90 @@ def check_identity(ent):
     st["nsym"] = sum(len(x[1]) for x in v["symbols"])
     st["ndyn"] = sum(len(x[1]) for x in v["dynamic"])
     st["nrel"] = sum(len(x[1]) for x in v["relocations"])
+    for d in st["reader_disagree"]:
+        which = d.split(":")[0]
+        vs.append(violation("identity:header-tables-differ-from-file:%s" % which,
+                            "%s: the %s the parser shows are not the ones a struct-level reading of the file gives" % (ent["name"], which), case))
+    st["digest"] = result_digest("ok", out, v)
     return vs, st
+
+
+# ---------------------------------------------------------------------------------------------------------------
+# histories: several files handled one after the other by ONE process
+
+def result_digest(outcome, out, v):
+    h = hashlib.sha256()
+    h.update(outcome.encode())
+    h.update(hashlib.sha256(out or b"").digest())
+    h.update(repr(v).encode())
+    return h.hexdigest()
+
+
+def bits_end(data):
+    return "elf%d%s" % ({1: 32, 2: 64}.get(data[4], 0), {1: "le", 2: "be"}.get(data[5], "??"))
+
+
+def parse_result(ent):
+    """(outcome, digest, detail) of parse + build + tables of one file in the current process state."""
+    from miasm.loader.elf_init import ELF
+    _quiet()
+    data = ent["data"]
+    cap = cap_for(data)
+    e, err = _guarded_sure(lambda: ELF(data), cap)
+    if err:
+        return "parse-" + err, result_digest("parse-" + err, None, None), None
+    out, err = _guarded_sure(lambda: bytes(e), cap)
+    if err:
+        return "build-" + err, result_digest("build-" + err, None, None), None
+    v, err = _guarded_sure(lambda: view(e), cap)
+    if err:
+        return "tables-" + err, result_digest("tables-" + err, None, None), None
+    return "ok", result_digest("ok", out, v), (out == data, len(v["sections"]), len(v["segments"]))
+
+
+def check_history(names, fresh_digest):
+    """Handle the files @names in this order in this process; the result for the last one must be the result the
+    same file gives when it is the only file its process ever handles (@fresh_digest, computed by the identity
+    stage in a process of its own)."""
+    ents = [elfcorpus.get(n) for n in names]
+    case = {"k": "history", "files": list(names)}
+    for ent in ents[:-1]:
+        try:
+            parse_result(ent)
+        except Exception:
+            pass
+    last = ents[-1]
+    skel = "%s-then-%s" % ("-then-".join(bits_end(e["data"]) for e in ents[:-1]), bits_end(last["data"]))
+    try:
+        outcome, digest, detail = parse_result(last)
+    except Exception as ex:
+        return [violation("history:%s:raise-%s" % (skel, type(ex).__name__),
+                          "%s handled after %s in the same process: %r escaped (alone in a fresh process it parses)"
+                          % (last["name"], ", ".join(names[:-1]), ex), case)], "violation"
+    if digest == fresh_digest:
+        return [], "same-as-fresh"
+    if outcome != "ok":
+        kind = outcome
+        what = "ends with %s" % outcome
+    elif not detail[0]:
+        kind = "bytes-differ"
+        what = "bytes(ELF(data)) != data (%d sections, %d segments seen)" % (detail[1], detail[2])
+    else:
+        kind = "tables-differ"
+        what = "round-trips byte for byte but shows other tables (%d sections, %d segments)" % (detail[1], detail[2])
+    return [violation("history:%s:%s" % (skel, kind),
+                      "%s handled after %s in the same process %s; handled alone in a fresh process it gives another result"
+                      % (last["name"], ", ".join(names[:-1]), what), case)], "violation"
+
+
+def history_shard(names, fresh_digest):
+    res = {"n": 1, "nt": 1, "vs": [], "outcomes": {}, "sample": None, "stats": None, "per_sig": {}, "digest": None}
+    vs, outcome = check_history(names, fresh_digest)
+    _bump(res["outcomes"], "history:" + outcome)
+    for v in vs:
+        res["per_sig"][v["sig"]] = 1
+        res["vs"].append(v)
+    return res
 
 
 # ---------------------------------------------------------------------------------------------------------------
@@ -478,25 +577,75 @@ def _bump(d, k, n=1):
     d[k] = d.get(k, 0) + n
 
 
-def _shard(args):
+def _in_child(fn, arg):
+    """Run fn(arg) in a process forked from this one and return its (pickled) result. The calling process never
+    executes loader code itself, so every child starts from the state the runner had when it imported this module:
+    whatever the loader memoises while it handles one shard cannot reach another shard."""
+    r, w = os.pipe()
+    pid = os.fork()
+    if pid == 0:
+        code = 0
+        try:
+            os.close(r)
+            try:
+                data = pickle.dumps(("ok", fn(arg)))
+            except BaseException:
+                data = pickle.dumps(("err", traceback.format_exc()))
+            with os.fdopen(w, "wb") as fd:
+                fd.write(data)
+        except BaseException:
+            code = 1
+        finally:
+            os._exit(code)
+    os.close(w)
+    with os.fdopen(r, "rb") as fd:
+        data = fd.read()
+    os.waitpid(pid, 0)
+    if not data:
+        return ("died", "")
+    return pickle.loads(data)
+
+
+def _capped(args):
     old = resource.getrlimit(resource.RLIMIT_AS)
     try:
         resource.setrlimit(resource.RLIMIT_AS, (MEM_CAP, old[1]))
     except (ValueError, OSError):
         pass
-    try:
-        return _shard_inner(args)
-    finally:
-        try:
-            resource.setrlimit(resource.RLIMIT_AS, old)
-        except (ValueError, OSError):
-            pass
+    return _shard_inner(args)
+
+
+def _shard(args):
+    status, res = _in_child(_capped, args)
+    if status == "ok":
+        return res
+    # the shard's process died or something escaped it: never a harness error, the loader did that on a corpus file
+    kind, name = args[0], args[1]
+    label = name if isinstance(name, str) else "+".join(name)
+    first = name if isinstance(name, str) else name[-1]
+    last = [l for l in res.strip().splitlines() if l.strip()][-1:] if res else []
+    exc = last[0].split(":")[0].strip() if last else "process-died"
+    v = violation("parse:raise:%s:%s:%s" % (exc, kind, file_class(elfcorpus.get(first)["data"])),
+                  "%s stage on %s: %s" % (kind, label, (res.strip().splitlines() or ["the process handling it died (memory cap or crash)"])[-1]),
+                  {"k": "shard", "args": list(args)})
+    return {"n": 1, "nt": 1, "vs": [v], "outcomes": {kind + ":escaped-exception": 1}, "sample": None, "stats": None,
+            "per_sig": {v["sig"]: 1}, "digest": None}
+
+
+def _caught(stage, ent, case, ex):
+    """An exception of the loader that reached the harness: a violation, never a harness error."""
+    tb = traceback.extract_tb(ex.__traceback__)
+    where = "%s:%d" % (os.path.basename(tb[-1].filename), tb[-1].lineno) if tb else "?"
+    return violation("parse:raise:%s:%s:%s" % (type(ex).__name__, stage, file_class(ent["data"])),
+                     "%s stage on %s: %r escaped at %s" % (stage, ent["name"], ex, where), case)
 
 
 def _shard_inner(args):
     kind, name, payload = args
+    if kind == "history":
+        return history_shard(name, payload)
     ent = elfcorpus.get(name) if not isinstance(name, dict) else name
-    res = {"n": 0, "nt": 0, "vs": [], "outcomes": {}, "sample": None, "stats": None, "per_sig": {}}
+    res = {"n": 0, "nt": 0, "vs": [], "outcomes": {}, "sample": None, "stats": None, "per_sig": {}, "digest": None}
 
     def add(vs):
         for v in vs:
@@ -506,7 +655,11 @@ def _shard_inner(args):
                 res["vs"].append(v)
 
     if kind == "identity":
-        vs, st = check_identity(ent)
+        try:
+            vs, st = check_identity(ent)
+        except Exception as ex:
+            vs, st = [_caught("identity", ent, {"k": "identity", "file": ent["name"], "sha256": ent["sha256"]}, ex)], {"reader_disagree": []}
+        res["digest"] = st.pop("digest", None)
         res["n"] = 1
         res["nt"] = 1
         res["stats"] = st
@@ -524,7 +677,11 @@ def _shard_inner(args):
             for pos in ("first", "last"):
                 for xor in xors:
                     for path in paths:
-                        vs, outcome = check_edit(ent, i, pos, xor, path, ov)
+                        try:
+                            vs, outcome = check_edit(ent, i, pos, xor, path, ov)
+                        except Exception as ex:
+                            vs, outcome = [_caught("edit", ent, {"k": "edit", "file": ent["name"], "sha256": ent["sha256"], "section": i,
+                                                                 "pos": pos, "xor": xor, "path": path}, ex)], "violation"
                         if outcome in ("same-as-first", "virt-not-applicable", "empty"):
                             continue
                         res["n"] += 1
@@ -539,7 +696,11 @@ def _shard_inner(args):
         lay, sites = deviation_sites(ent["data"])
         for (label, fcls, off, sz, _) in sites[lo:hi]:
             for delta in (1, -1):
-                vs, outcome = check_deviation(ent, label, fcls, off, sz, delta)
+                try:
+                    vs, outcome = check_deviation(ent, label, fcls, off, sz, delta)
+                except Exception as ex:
+                    vs, outcome = [_caught("deviation", ent, {"k": "deviation", "file": ent["name"], "sha256": ent["sha256"], "label": label,
+                                                              "fcls": fcls, "off": off, "sz": sz, "delta": delta}, ex)], "violation"
                 res["n"] += 1
                 if outcome.startswith("accepted") or outcome == "violation":
                     res["nt"] += 1
@@ -550,7 +711,14 @@ def _shard_inner(args):
     return res
 
 
+def _preimport():
+    """Import (only import) the loader in the parent so that the per-shard children do not pay for it."""
+    import miasm.loader.elf_init  # noqa: F401
+    _quiet()
+
+
 def run(ctx):
+    _preimport()
     entries, manifest = elfcorpus.load()
     paths = PATHS_QUICK if ctx.quick else PATHS_THOROUGH
     xors = XORS_QUICK if ctx.quick else XORS_THOROUGH
@@ -569,8 +737,21 @@ def run(ctx):
             step = 12 if big else 80
             for a in range(0, len(sites), step):
                 shards.append(("deviation", ent["name"], (a, a + step)))
-    # heavy shards first
     res = ctx.pmap(_shard, shards)
+    # histories: ordered pairs of files handled by ONE process (quick: the 21 objects of one source, one per
+    # toolchain variant; thorough: the whole corpus), compared with the result of the second file alone
+    fresh = {}
+    for sh, r in zip(shards, res):
+        if sh[0] == "identity" and r.get("digest"):
+            fresh[sh[1]] = r["digest"]
+    pool = [e["name"] for e in entries if e["name"].startswith(HISTORY_SOURCE_QUICK + ".")] if ctx.quick else [e["name"] for e in entries]
+    pool = [n for n in pool if n in fresh]
+    hshards = [("history", (a, b), fresh[b]) for a in pool for b in pool if a != b]
+    be = {e["name"]: bits_end(e["data"]) for e in entries}
+    hist_classes = {}
+    for _, (a, b), _d in hshards:
+        _bump(hist_classes, "%s-then-%s" % (be[a], be[b]))
+    res = res + ctx.pmap(_shard, hshards)
     n = sum(r["n"] for r in res)
     nt = sum(r["nt"] for r in res)
     outcomes, per_sig = {}, {}
@@ -619,6 +800,14 @@ def run(ctx):
         "distinct_outcomes": len(outcomes),
         "outcomes": outcomes,
         "refused": sum(v for k, v in outcomes.items() if "refused" in k),
+        "histories": len(hshards),
+        "history_file_pool": len(pool),
+        "histories_by_class_order": hist_classes,
+        "histories_32_then_64_same_byte_order": sum(v for k, v in hist_classes.items() if k in ("elf32le-then-elf64le", "elf32be-then-elf64be")),
+        "histories_64_then_32_same_byte_order": sum(v for k, v in hist_classes.items() if k in ("elf64le-then-elf32le", "elf64be-then-elf32be")),
+        "process_model": "every shard (one file, or one history) runs in a process forked for it from a parent that never "
+                         "runs loader code: per-file results are fresh-state results, histories are the only place where "
+                         "one process handles several files, and each history's last result is compared with the fresh one",
         "independent_reader_disagreements": len(reader_disagree),
         "independent_reader_disagreement_list": reader_disagree[:20],
         "violating_evaluations_by_sig": per_sig,
@@ -627,8 +816,17 @@ def run(ctx):
 
 
 def replay(case):
-    ent = elfcorpus.get(case["file"])
+    _preimport()
     k = case["k"]
+    if k == "history":
+        names = case["files"]
+        status, r = _in_child(_capped, ("identity", names[-1], None))
+        fresh = r.get("digest") if status == "ok" else None
+        status, r = _in_child(_capped, ("history", tuple(names), fresh))
+        return r["vs"] if status == "ok" else _shard(("history", tuple(names), fresh))["vs"]
+    if k == "shard":
+        return _shard(list(case["args"]))["vs"]
+    ent = elfcorpus.get(case["file"])
     if k == "identity":
         return check_identity(ent)[0]
     if k == "edit":
